@@ -971,3 +971,50 @@ func ruleStartupWrites(r *core.Run) {
 	r.Discharge("D3-startup", "D3-startup|scope", r.P.FuncPos(fn), fmt.Sprintf("%d module functions reachable from app.New; no committed-store write and no out-of-block context among them", len(reach)))
 	r.Count("startup_reachable_funcs", len(reach))
 }
+
+// ruleD1Dep (D1-dep): the one known place where a dependency reads the host
+// clock on a consensus path is sao-did's DidManager.VerifyJWS (v0.0.12 did.go:
+// `time.Now().After(nextUpdate)` / `time.Now().Before(updated)`), and it does so
+// only when the resolved document's metadata carries NextUpdate / Updated. The
+// stock resolvers never set them; module code must not either (no store to
+// those fields anywhere in the module), otherwise the verdict of a signature
+// check depends on the executing node's wall clock.
+func ruleD1Dep(r *core.Run) {
+	n, bad := 0, 0
+	for _, f := range r.P.Funcs {
+		if r.P.IsGenerated(f) {
+			continue
+		}
+		n++
+		for _, b := range f.Blocks {
+			for _, ins := range b.Instrs {
+				st, ok := ins.(*ssa.Store)
+				if !ok {
+					continue
+				}
+				fa, ok := st.Addr.(*ssa.FieldAddr)
+				if !ok {
+					continue
+				}
+				T := fa.X.Type()
+				if p, ok := T.Underlying().(*types.Pointer); ok {
+					T = p.Elem()
+				}
+				if !strings.HasSuffix(T.String(), "sao-did/types.DidDocumentMetadata") {
+					continue
+				}
+				fld := fieldNameT(fa.X.Type(), fa.Field)
+				if fld != "NextUpdate" && fld != "Updated" {
+					continue
+				}
+				if c, isC := st.Val.(*ssa.Const); isC && c.Value != nil && c.Value.ExactString() == `""` {
+					continue
+				}
+				bad++
+				r.Violate("D1-dep", core.Key("D1-dep", r.P.Name(f), "DidDocumentMetadata."+fld), r.P.Pos(st.Pos()), fmt.Sprintf("%s sets DidDocumentMetadata.%s on a resolved DID document: sao-did's VerifyJWS compares that field with time.Now() (the executing node's wall clock), so whether a signature is accepted then differs between a live validator and a node replaying the block later", r.P.Name(f), fld))
+			}
+		}
+	}
+	r.Discharge("D1-dep", "D1-dep|scope", "", fmt.Sprintf("%d module functions scanned; %d stores to DidDocumentMetadata.NextUpdate/Updated (the inputs of the only wall-clock comparison in the DID library's verification path)", n, bad))
+}
+
